@@ -32,7 +32,7 @@ func init() {
 		Fn: checkC17, Level: "model_checking",
 		Rule: "every extended commit of 3 validators with per-validator (flag in {commit, absent, nil, nil carrying one of 5 unauthenticated extensions}) x (payload in {empty, {}, null fields, own initial signatures, another validator's (replayed) initial signatures, invalid signatures, valset signature for the right / a wrong timestamp / 66 bytes, attestation for the current / an unknown / a duplicated snapshot, truncated JSON, random bytes}) - 21^3 commits with real ed25519 extension signatures - is run in 3 worlds (validator set unchanged / reordered after the snapshot / reordered by a checkpoint recorded in the very block of the snapshot) through the real PrepareProposalHandler, ProcessProposalHandler (baseapp's recover reproduced), VerifyVoteExtensionHandler and the real PreBlocker closure; oracles: Process(Prepare(commit)) accepts whenever baseapp.ValidateVoteExtensions accepts the commit; the injected data equals an independent reading of the extensions; every single-element mutation (change/delete/insert/swap in each of the 8 injected lists) of an accepted proposal is rejected; the store difference across PreBlocker is exactly what the extensions imply (EVM address only for unregistered operators and equal to the sender's own key; signatures/attestations only in the sender's slot); no panic escapes PreBlocker, recovered panics are counted",
 		Assume:      []string{"block_height and extended_commit_info in the injected tx are not bridge data and are not mutated", "ExtendVoteHandler needs a node keyring and is exercised only for its no-key path", "the relayer-side meaning of a signature (ecrecover) is C15/C16's subject; here signatures are opaque bytes"},
-		QuickBudget: 7 * time.Minute, ThoroughBudget: 15 * time.Minute,
+		QuickBudget: 10 * time.Minute, ThoroughBudget: 15 * time.Minute,
 	})
 }
 
